@@ -44,6 +44,10 @@ def run(ck: Checker):
         s_ = server.discover(ck.repo, name)
         server.check_race_free_resolution(ck, 'C06-14', s_)
         server.check_unknown_id_tolerated(ck, 'C06-14', s_)
+    from .c04 import check_routing_sinks as _crs
+
+    with ck.as_rule('C06-16', 'a failed request gives its slot back through every topology: the routing threads of compound servlets hand a value to a member stage or to the user\'s switch() only when it is proven not to be an exception value (C04-3 / C02-7) — switch() raising on one ends the dispatch thread, and every later request keeps its slot for ever', minimum=3):
+        _crs(ck, 'C04-3')
     ck.rule('C06-15', 'a request that was admitted gets an answer, and with it its slot back: the thread that feeds the first process stage survives an input whose pickling fails — whatever the error class — and answers that request (C04-11); a dead feeder leaves every later admitted request in the ledger for ever')
     from .c04 import check_onboarding
 
